@@ -1614,7 +1614,28 @@ func doubleClear(m *meta, rng *rand.Rand, round int) {
 	<-d1
 	<-d2
 	if v, ok := c.Get(7); ok || c.Size() != 0 {
-		m.violate("C04", fmt.Sprintf("%s: Clear, SetAsync(7,7) accepted, Clear again (all queued in one batch): after the second Clear returned Get(7)=(%d,%v), Size=%d", ctx, v, ok, c.Size()), ctx)
+		for _, p := range []string{"C04", "C01"} {
+			m.violate(p, fmt.Sprintf("%s: Clear, SetAsync(7,7) accepted, Clear again (all queued in one batch): after the second Clear returned Get(7)=(%d,%v), Size=%d (a cleared value is served)", ctx, v, ok, c.Size()), ctx)
+		}
+	}
+	// a Sync barrier followed by a Clear in the same batch: both callers return
+	c.VerifHoldDrain(0, true)
+	h2, _, _, _ := c.VerifRingState(0)
+	s1, s2 := make(chan struct{}), make(chan struct{})
+	go func() { c.Sync(); close(s1) }()
+	waitHead(h2)
+	h3, _, _, _ := c.VerifRingState(0)
+	go func() { c.Clear(); close(s2) }()
+	waitHead(h3)
+	c.VerifHoldDrain(0, false)
+	for i, ch := range []chan struct{}{s1, s2} {
+		select {
+		case <-ch:
+		case <-time.After(3 * time.Second):
+			for _, p := range []string{"C07", "C04"} {
+				m.violate(p, fmt.Sprintf("%s: a Sync barrier and a Clear queued in one batch (drain token busy, then released): %s did not return within 3 s", ctx, []string{"Sync", "Clear"}[i]), ctx)
+			}
+		}
 	}
 	c.Close()
 	m.count("double_clear_rounds")
@@ -1717,7 +1738,7 @@ func expiryRace(m *meta, rng *rand.Rand, round int) {
 	must(err)
 	stop := make(chan struct{})
 	var wg sync.WaitGroup
-	var pairBad atomic.Int64
+	var pairBad, rdCalls, rdFound atomic.Int64
 	watch(ctx)
 	for g := 0; g < 6; g++ {
 		wg.Add(1)
@@ -1734,9 +1755,13 @@ func expiryRace(m *meta, rng *rand.Rand, round int) {
 					return
 				default:
 				}
-				c.Get(1)
+				if _, ok := c.Get(1); ok {
+					rdFound.Add(1)
+				}
+				rdCalls.Add(3)
 				// value / deadline pairing: an odd value was written with 1 h, an even one with 120 us
 				if v, rem, ok := c.GetWithTTL(1); ok {
+					rdFound.Add(1)
 					if (v%2 == 1 && (rem <= time.Minute || rem > time.Hour)) || (v%2 == 0 && (rem < 0 || rem > 120*time.Microsecond)) {
 						if pairBad.Add(1) <= 2 {
 							for _, p := range []string{"C11", "C05", "C02"} {
@@ -1745,7 +1770,9 @@ func expiryRace(m *meta, rng *rand.Rand, round int) {
 						}
 					}
 				}
-				c.GetWithTTL(2)
+				if _, _, ok := c.GetWithTTL(2); ok {
+					rdFound.Add(1)
+				}
 				c.Exists(1)
 				c.Exists(2)
 				c.Exists(4)
@@ -1766,7 +1793,12 @@ func expiryRace(m *meta, rng *rand.Rand, round int) {
 		c.Set(1, 2*i+1, time.Hour)         // rewrite while readers may hold the expired item
 		for j := 0; j < 3; j++ {
 			runtime.Gosched()
-			if v, rem, ok := c.GetWithTTL(1); !ok || v != 2*i+1 || rem <= 0 || rem > time.Hour {
+			v, rem, ok := c.GetWithTTL(1)
+			rdCalls.Add(1)
+			if ok {
+				rdFound.Add(1)
+			}
+			if !ok || v != 2*i+1 || rem <= 0 || rem > time.Hour {
 				missing++
 				if missing <= 2 {
 					m.violate("C05", fmt.Sprintf("%s: Set(1,v%d,1h) returned, nobody else writes or deletes and the cache has room, yet GetWithTTL(1)=(%d,%v,%v)", ctx, 2*i+1, v, rem, ok), ctx)
@@ -1795,6 +1827,9 @@ func expiryRace(m *meta, rng *rand.Rand, round int) {
 		m.violate("C10", fmt.Sprintf("%s: Stats().Expirations=%d but %d expiry notifications were delivered (%d others) after quiescence", ctx, st.Expirations, expired, other), ctx)
 	}
 	mu.Unlock()
+	if st.Hits+st.Misses != rdCalls.Load() || st.Hits != rdFound.Load() {
+		m.violate("C10", fmt.Sprintf("%s: %d Get/GetWithTTL calls returned (%d with a value) while entries expired under concurrent readers, but Stats reports Hits=%d Misses=%d", ctx, rdCalls.Load(), rdFound.Load(), st.Hits, st.Misses), ctx)
+	}
 	if err := c.VerifCheckInvariants(); err != nil {
 		for _, p := range []string{"C11", "C10"} {
 			m.violate(p, fmt.Sprintf("%s: internal structures disagree after concurrent expiry discovery through Get/GetWithTTL/Exists: %v", ctx, err), ctx)
@@ -1990,7 +2025,7 @@ func streamConc(o opts) {
 			m.nontrivial(fmt.Sprintf("stress/p%d/m%d/s%d/a%v", pol, sc.conf.MaxSize, sc.conf.ShardCount, sc.async))
 		case 2:
 			asyncOrder(m, rng, r)
-			for j := 0; j < 6; j++ {
+			for j := 0; j < 14; j++ {
 				closeRaces(m, rng, r)
 			}
 			expiryRace(m, rng, r)
